@@ -1,3 +1,4 @@
+import Resgate.Proofs.Ready
 import Resgate.Proofs.Rpc
 import Resgate.Proofs.GwPure
 
@@ -20,6 +21,22 @@ theorem dispatch_total (m : Bytes) :
   | invalid => exact Or.inr (Or.inl rfl)
   | req k rid method => exact Or.inr (Or.inr ⟨k, rid, method, rfl, (rpcDispatch_req h).1⟩)
 
+/-- **One reply per request tree.** The ready-callback counter of a request (`loading`): under the
+    discipline of `collectRefs` (references are registered while the visiting subscription still holds
+    its own token), whatever the order in which the registered subscriptions load, the reply
+    callback has run exactly once when the root is done and nothing is outstanding, and not at all
+    before — never twice, never early. -/
+theorem reply_fires_exactly_once (ops : List Ready.Op) (hd : Ready.Disciplined {} ops) :
+    (Ready.run {} ops).fired =
+      if (Ready.run {} ops).rootHeld = false ∧ (Ready.run {} ops).outstanding = 0 then 1 else 0 :=
+  Ready.fires_exactly_once ops hd
+
+/-- The discipline matters: giving the root's token back before registering a reference lets the
+    counter pass through zero early — two replies. -/
+theorem reply_twice_without_discipline :
+    (Ready.run {} [.rootDone, .register, .loaded]).fired = 2 :=
+  Ready.undisciplined_fires_twice
+
 /-- An unsubscribe request is always answered immediately, with exactly one of three outcomes. -/
 theorem unsubscribe_answered (bad : Bool) (count : Int) (direct : Option Int) :
     unsubVerdict bad count direct = .ok ∨ unsubVerdict bad count direct = .invalidParams ∨
@@ -27,5 +44,9 @@ theorem unsubscribe_answered (bad : Bool) (count : Int) (direct : Option Int) :
   cases unsubVerdict bad count direct <;> simp
 
 example : rpcDispatch [103, 101, 116] = .invalid := by decide
+
+-- the discipline is satisfiable: two references registered, loaded in the other order
+example : Ready.Disciplined {} [.register, .register, .rootDone, .loaded, .loaded] := by
+  simp [Ready.Disciplined, Ready.step]
 
 end Resgate.C07
